@@ -655,4 +655,30 @@ class ClimateModeDrv(Driver):
         return None
 
 
+    def model_line(self, case, recs):
+        from xknx.dpt.dpt_20 import HVACControllerMode, HVACOperationMode
+
+        cfg = case["cfg"]
+        gas = cfg["ga"]
+        flags = "".join(str(int(_ga(k) in gas)) for k in ("operation_mode", "controller_mode", "controller_status", "heat_cool"))
+        own = {"comfort": "COMFORT", "economy": "ECONOMY", "protection": "BUILDING_PROTECTION", "standby": "STANDBY"}
+        bins = [str(HVACOperationMode[own[b]].value) for b in ("comfort", "economy", "protection", "standby") if _ga(f"operation_mode_{b}") in gas]
+        filt = cfg["kw"].get("operation_modes")
+        ftok = "*" if filt is None else (",".join(str(HVACOperationMode[n].value) for n in filt) or "-")
+        pre = case.get("pre", [])
+        ptok = str(int(pre[-1][1][2:], 16)) if pre else "-"
+        calls, exp = [], []
+        short = {_ga("operation_mode"): "op", _ga("controller_mode"): "ct", _ga("controller_status"): "st", _ga("heat_cool"): "hc"}
+        for b, n in own.items():
+            short[_ga(f"operation_mode_{b}")] = f"b{HVACOperationMode[n].value}"
+        for (m, args), rec in zip(case["calls"], recs[1:]):
+            if m == "set_operation_mode":
+                calls.append(f"o{HVACOperationMode[args[0]['v']].value}")
+            else:
+                calls.append(f"c{HVACControllerMode[args[0]['v']].value}")
+            tg = ",".join(f"{short.get(s[0], s[0])}={int(s[2][2:], 16)}" for s in rec["sent"]) or "-"
+            exp.append(f"{rec['r']}|{tg}|{HVACOperationMode[rec['obs']['op']].value}|{HVACControllerMode[rec['obs']['ct']].value}")
+        return f"c39m {flags} {','.join(bins) or '-'} {ftok} {ptok} {';'.join(calls)}", " ".join(exp)
+
+
 register(ClimateModeDrv())
